@@ -142,6 +142,70 @@ def context_scripts(rng, n):
     return out
 
 
+def collision_scripts(rng, n):
+    """Families of scripts that share identifiers, helper names + parameter lists, literal texts and tune names but differ in
+    what those mean: anything remembered from one transpilation (memo tables keyed by name/signature/text, shared tables
+    mutated in place) or iterated in set order (mixed bool/int operand sets) shows as a different output for a later script."""
+    out = []
+    bodies = ["return v * 2", "return v * 0.5", "return v + 100", "t = v\n    return t", "return v - 1.5", "return 3"]
+    tunes = ["error", "success", "notify", "siren", "alarm"]
+    prev_tune = None
+    for k in range(n):
+        kind = k % 6
+        L = [HDR.rstrip("\n")]
+        if kind == 0:
+            # same helper name / parameter text / call signatures, different bodies
+            b1, b2 = rng.sample(bodies, 2)
+            arg = rng.choice(["1.5", "3", '"ab"' if "0.5" not in b1 + b2 and "1.5" not in b1 + b2 and "100" not in b1 + b2 and "* 2" not in b1 + b2 else "2.5"])
+            L += [f"def scale(v):\n    {b1}", f"def ready(v):\n    {b2}", f"reading = scale({arg})", "mon.write(reading)", "margin = ready(3)", "mon.write(margin)",
+                  f"again = scale({rng.choice(['2', '0.25'])})", "mon.write(again)"]
+        elif kind == 1:
+            # the same tune from setup(), from the main loop, from a helper; explicit / default / run-time tempo
+            tune = rng.choice(tunes)
+            where = ["loop", "setup", "def", "setup-tempo", "loop-tempo"][(k // 6) % 5]
+            if (k // 6) % 5 == 1:
+                tune = prev_tune or tune   # the same tune from setup() right after it was played from the main loop
+            prev_tune = tune
+            L += ["bz = Buzzer(8)"]
+            if where == "setup":
+                L += [f'bz.melody("{tune}")']
+            elif where == "setup-tempo":
+                L += [f'bz.melody("{tune}", tempo={rng.choice([100, 90, 300])})', f'bz.melody("{tune}")']
+            elif where == "def":
+                L += [f'def jingle():\n    bz.melody("{tune}")\n    return 1', "q = jingle()"]
+            elif where == "loop":
+                L += ["while True:", f'    bz.melody("{tune}")', "    sleep(100)"]
+            else:
+                L += ["tp = 150", "while True:", f'    bz.melody("{tune}", tempo=tp)', f'    bz.melody("{tune}", tempo={rng.choice([60, 240])})', "    sleep(100)"]
+        elif kind == 2:
+            # textually identical list / str literals, one of them mutated
+            lit = rng.choice(["[1, 0, 1]", "[5, 6]", "[1, 0, 128, 0]"])
+            L += ["led = Led(5)", f"a = {lit}", f"b = {lit}"]
+            if rng.random() < 0.6:
+                L += [f"a.append({rng.choice([0, 1, 64])})"]
+            if rng.random() < 0.4:
+                L += [f"a.remove({lit[1]})"]
+            L += ["mon.write(len(a))", "mon.write(len(b))", "led.flash_pattern(b, 20)", "for i in range(len(b)):", "    mon.write(b[i])"]
+        elif kind == 3:
+            # min/max/abs over operands of different non-float types
+            L += ["led = Led(5)", "level = analog_read(0)", "lit = led.get_state()", f"top = {rng.choice(['max', 'min'])}(lit, level)", "mon.write(top)",
+                  f"low = {rng.choice(['max', 'min'])}(level, lit, {rng.choice(['True', '1'])})", "mon.write(low)", "flag = abs(lit)", "mon.write(flag)"]
+        elif kind == 4:
+            # same names, different types from script to script
+            t = rng.choice(["int", "float", "str", "bool"])
+            v = {"int": "3", "float": "2.5", "str": '"ab"', "bool": "True"}[t]
+            L += [f"value = {v}", "def show(x):\n    mon.write(x)\n    return x", "kept = show(value)", "other = value", "mon.write(other)",
+                  "for i in range(2):", f"    inner = {v}", "    mon.write(inner)"]
+        else:
+            # glyph / pattern / device state names reused with other contents
+            rows = [rng.choice([0, 31, 17, 4]) for _ in range(8)]
+            L += ["lcd = LCD(rs=12, en=11, d4=5, d5=4, d6=3, d7=2)", f"lcd.glyph({rng.randint(0, 7)}, {rows})",
+                  f'lcd.animate("{rng.choice(["scroll", "blink", "bounce", "typewriter"])}", 0, "{rng.choice(["hi", "Reduino rocks"])}", speed_ms={rng.choice([50, 200])}, loop={rng.choice(["True", "False"])})',
+                  "while True:", "    sleep(10)"]
+        out.append("\n".join(L) + "\n")
+    return out
+
+
 def mixed(seed_parts, n_prog=30, n_promo=20, n_dev=10):
     rng = rng_for(*seed_parts, "corpus")
     scripts = [prog.generate((*seed_parts, "corpus", i), "clean")["source"] for i in range(n_prog)]
@@ -150,4 +214,5 @@ def mixed(seed_parts, n_prog=30, n_promo=20, n_dev=10):
     scripts += lcd_scripts(rng, max(3, n_dev // 2))
     scripts += string_scripts(rng, max(3, n_dev // 2))
     scripts += context_scripts(rng, max(8, n_dev))
+    scripts += collision_scripts(rng, max(24, 3 * n_dev))
     return scripts
